@@ -56,6 +56,9 @@ class ChunkParser:
                 # Chunk extensions (RFC 7230 section 4.1.1) follow the
                 # size after a semicolon and are not part of the size.
                 self.size = int(line.split(b';', 1)[0], 16)
+                # int() accepts a sign, a negative size would never be consumed
+                if self.size < 0:
+                    raise ValueError('Invalid chunk size %r' % line)
                 self.state = chunkParserStates.WAITING_FOR_DATA
         elif self.state == chunkParserStates.WAITING_FOR_DATA:
             assert self.size is not None
